@@ -144,10 +144,14 @@ impl CacheObliviousSort {
     fn funnel_sort_recursive<T: Clone + Ord>(&mut self, data: &mut [T], k: usize) -> Result<()> {
         let n = data.len();
         
-        if n <= self.config.small_threshold {
+        if n <= self.config.small_threshold || n <= 1 {
             self.insertion_sort(data);
             return Ok(());
         }
+
+        // Always subdivide into at least two (and at most n) parts: with k = 1 the only
+        // "sublist" is the whole slice and the recursion never terminates
+        let k = k.max(2).min(n);
 
         // Calculate optimal subdivision parameters
         let sqrt_k = (k as f64).sqrt() as usize;
